@@ -49,11 +49,11 @@ impl Buf {
     fn ret<E: std::fmt::Display>(&mut self, r: &Result<(), E>) {
         match r {
             Ok(()) => self.u8(0),
-            Err(e) => {
+            Err(_) => {
+                // -1 and a retrievable, non-empty, NUL-terminated description (its wording is not compared)
                 self.u8(1);
-                let d = e.to_string();
-                self.u16(d.len() as u16);
-                self.raw(d.as_bytes());
+                self.u8(0xfd);
+                self.u8(1);
             }
         }
     }
@@ -635,24 +635,16 @@ impl<'a> RRun<'a> {
             self.log.u8(0xfe);
             return;
         }
-        if mode == 2 {
-            let d = if ret == -1 && !err.is_null() { (self.t.error_description)(err) } else { std::ptr::null() };
-            self.log.u8(0xfd);
-            self.log.u8((!d.is_null() && *d != 0) as u8);
-            return;
-        }
         if ret == -1 {
+            let d = if !err.is_null() { (self.t.error_description)(err) } else { std::ptr::null() };
             let mut n = 0usize;
-            let d = if err.is_null() { std::ptr::null() } else { (self.t.error_description)(err) };
             if !d.is_null() {
                 while n < 1024 && *d.add(n) != 0 {
                     n += 1;
                 }
             }
-            self.log.u16(n as u16);
-            if !d.is_null() {
-                self.log.raw(std::slice::from_raw_parts(d as *const u8, n));
-            }
+            self.log.u8(0xfd);
+            self.log.u8((!d.is_null() && n > 0 && n < 1024) as u8);
         }
     }
     unsafe fn record_ops(&mut self, it: It, nops: usize) {
